@@ -145,6 +145,23 @@ func dispResets(fd *ast.FuncDecl, funcs dispFuncs, field string, allowNil bool, 
 
 // Aux.Call stores into the cache under the same identifier it used for the probe, and that
 // identifier is initialised from buildSpecKey(args[:aux.reqCnt]).
+// dispCallKeyedDeep: the fact holds for Aux.Call itself or for a method of Aux it calls (the cache
+// probe and fill may live in a helper such as findMethod).
+func dispCallKeyedDeep(fd *ast.FuncDecl, funcs dispFuncs) bool {
+	if dispCallKeyed(fd) {
+		return true
+	}
+	if fd == nil {
+		return false
+	}
+	for _, c := range dispCallees(fd, funcs) {
+		if dispCallKeyed(c) {
+			return true
+		}
+	}
+	return false
+}
+
 func dispCallKeyed(fd *ast.FuncDecl) bool {
 	if fd == nil {
 		return false
@@ -209,7 +226,7 @@ func genDispatchFacts(repo string) (string, error) {
 		{"defmethodRecomputesDefault", "addMethodCaller recomputes Aux.defaultCaller", dispResets(funcs["addMethodCaller"], funcs, "defaultCaller", true, 2)},
 		{"addMethodRecomputesDefault", "Aux.AddMethod recomputes Aux.defaultCaller", dispResets(funcs["Aux.AddMethod"], funcs, "defaultCaller", true, 2)},
 		{"removeMethodRecomputesDefault", "RemoveMethod.Call recomputes Aux.defaultCaller", dispResets(funcs["RemoveMethod.Call"], funcs, "defaultCaller", true, 2)},
-		{"callStoresUnderProbedKey", "Aux.Call probes and fills the cache with one key built from all required arguments", dispCallKeyed(funcs["Aux.Call"])},
+		{"callStoresUnderProbedKey", "Aux.Call probes and fills the cache with one key built from all required arguments", dispCallKeyedDeep(funcs["Aux.Call"], funcs)},
 	}
 	for _, f := range facts {
 		fmt.Fprintf(&sb, "/-- %s -/\ndef %s : Bool := %s\n\n", f.doc, f.name, b(f.val))
